@@ -411,6 +411,11 @@ class Inliner:
                 setattr(new, fld, v2)
             else:
                 setattr(new, fld, T().visit(copy.deepcopy(v)))
+        if isinstance(st, ast.Assign):
+            # helper calls inside the index of a subscript target: `d[self.h(k)] = v`
+            new.targets = [T().visit(copy.deepcopy(t)) if isinstance(t, (ast.Subscript, ast.Attribute)) else t for t in st.targets]
+        elif isinstance(st, (ast.AugAssign, ast.AnnAssign)) and isinstance(st.target, (ast.Subscript, ast.Attribute)):
+            new.target = T().visit(copy.deepcopy(st.target))
         if not pre:
             return None
         for n in pre:
